@@ -134,6 +134,91 @@ func sweepVariants(root, repo, prop string) {
 	os.WriteFile(evp, nb, 0o644)
 }
 
+// sweepPinned re-runs the property's rules on the repository's root commit (the pinned tree before any fix: commit)
+// and reports how many of the defects recorded as `fixed` in known_findings.json are detected there again.
+// It is a self-test of the rules against real, reproduced defects; it never changes the exit status.
+func sweepPinned(root, repo, prop string, known *knownFile) {
+	var want []knownEntry
+	for _, e := range known.Findings {
+		if e.Status == "fixed" && e.Property == prop {
+			want = append(want, e)
+		}
+	}
+	if len(want) == 0 {
+		return
+	}
+	base, err := exec.Command("git", "-C", repo, "rev-list", "--max-parents=0", "HEAD").Output()
+	if err != nil {
+		fmt.Printf("%s: pinned-tree self-test skipped (git: %v)\n", prop, err)
+		return
+	}
+	commit := strings.Fields(string(base))[0]
+	tmp, err := os.MkdirTemp("", "crdcheck-pinned-")
+	if err != nil {
+		return
+	}
+	defer os.RemoveAll(tmp)
+	ar := exec.Command("sh", "-c", fmt.Sprintf("git -C %q archive %s | tar -x -C %q", repo, commit, tmp))
+	if out, err := ar.CombinedOutput(); err != nil {
+		fmt.Printf("%s: pinned-tree self-test skipped (%v: %s)\n", prop, err, lastLine(string(out)))
+		return
+	}
+	exe, _ := os.Executable()
+	out, _ := exec.Command(exe, "-p", prop, "-tier", "quick", "-repo", tmp, "-noevidence").CombinedOutput()
+	found := map[string]bool{}
+	for _, line := range strings.Split(string(out), "\n") {
+		if !strings.HasPrefix(line, "FINDING ") {
+			continue
+		}
+		rule, cons := "", ""
+		if i := strings.Index(line, "rule="); i >= 0 {
+			rule = strings.Fields(line[i+5:])[0]
+		}
+		if i := strings.Index(line, "construct=\""); i >= 0 {
+			rest := line[i+11:]
+			if j := strings.Index(rest, "\" at "); j >= 0 {
+				cons = rest[:j]
+			}
+		}
+		found[rule+"|"+cons] = true
+	}
+	type res struct {
+		Rule, Construct, Commit, What string
+		Redetected                    bool
+	}
+	var rs []res
+	n := 0
+	for _, e := range want {
+		ok := found[e.Rule+"|"+e.Construct]
+		if ok {
+			n++
+		}
+		rs = append(rs, res{e.Rule, e.Construct, e.Commit, e.What, ok})
+	}
+	fmt.Printf("%s: pinned-tree self-test: %d/%d repaired defects are reported again on the root commit %s\n", prop, n, len(want), commit[:7])
+	for _, r := range rs {
+		if !r.Redetected {
+			fmt.Printf("  not re-detected: %s %s\n", r.Rule, r.Construct)
+		}
+	}
+	evp := filepath.Join(root, "evidence", prop+".json")
+	b, err := os.ReadFile(evp)
+	if err != nil {
+		return
+	}
+	var ev map[string]any
+	if json.Unmarshal(b, &ev) != nil {
+		return
+	}
+	if cov, _ := ev["coverage"].(map[string]any); cov != nil {
+		cov["pinned_defects"] = len(want)
+		cov["pinned_defects_redetected"] = n
+		cov["pinned_defect_list"] = rs
+		nb, _ := json.MarshalIndent(ev, "", " ")
+		os.WriteFile(evp, nb, 0o644)
+	}
+}
+
 func lastLine(s string) string {
 	ls := strings.Split(strings.TrimSpace(s), "\n")
 	return ls[len(ls)-1]
